@@ -53,13 +53,22 @@ RECURSIVE HeldAfter(_, _)
 HeldAfter(h, evs) == IF evs = <<>> THEN h
                    ELSE HeldAfter(IF Head(evs).t = "P" THEN h \cup {Head(evs).k} ELSE h \ {Head(evs).k}, Tail(evs))
 InSeq(s, x) == \E i \in 1..Len(s): s[i] = x
+\* some event of the batch presses a key that is down at that instant, or releases one that is up
+RECURSIVE Redundant(_, _)
+Redundant(h, evs) == IF evs = <<>> THEN FALSE
+                     ELSE LET e == Head(evs) IN
+                          IF e.t = "P" THEN e.k \in h \/ Redundant(h \cup {e.k}, Tail(evs))
+                          ELSE IF e.t = "R" THEN e.k \notin h \/ Redundant(h \ {e.k}, Tail(evs))
+                          ELSE Redundant(h, Tail(evs))
 \* C11: the chord the property asks for: keys not already held, pressed in listed order, released in reverse
 WantedChord(keys, h) == LET ks == SelectSeq(keys, LAMBDA k: k \notin h) IN Ps(ks) \o Rs(Reverse(ks))
 TabQ(arr) == [i \in 1..Len(arr) |-> arr[i] = "On"]
 
 Tag(c, t) == IF c THEN {t} ELSE {}
 \* evaluated at every call that is not a send: an owed send did not happen; keys survived the tablet switch
-Owed == Tag(must.on, IF must.kind = "chord" THEN "C11-chord-missing" ELSE "C10-send-missing-" \o must.kind)
+\* (after a failed call nothing is owed any more: C20 obliges the loop to stop without a further write)
+Owed == IF failed THEN {} ELSE
+        Tag(must.on, IF must.kind = "chord" THEN "C11-chord-missing" ELSE "C10-send-missing-" \o must.kind)
         \* after a tablet-mode change the loop is to behave as a newly started one: a new loop would write exactly the wanted chord
         \cup Tag(must.on /\ must.kind = "chord" /\ afterTab, "C12-chord-not-as-fresh-after-tablet-mode")
         \cup Tag(~must.on /\ must.on2, "C12-not-fresh-after-tablet-mode")
@@ -157,6 +166,14 @@ ConsumeLine ==
                        \* C01 at the loop: the loop goes (back) to waiting, every key that ever went down has come up again (by everything
                        \* that has ARRIVED so far), and keys are still down on the virtual keyboard
                        \cup Tag(aphys = {} /\ held # {} /\ ~isErr, "C01-keys-held-while-waiting-although-every-key-was-released")
+                       \* The next three are about what is DOWN ON THE DEVICE: `held` folds the writes that succeeded (a write that failed changed nothing
+                       \* there). They can only fail in a run with an injected write failure that the loop survives (HEAD returns at the failure).
+                       \* C12 at the device: the loop waits in tablet mode and keys are still down on the virtual keyboard
+                       \cup Tag(inTab /\ held # {} /\ ~isErr, "C12-keys-down-on-the-virtual-keyboard-while-waiting-in-tablet-mode")
+                       \* C02 at the device: the loop waits and a key is down on the virtual keyboard that neither is held (by what the loop has read)
+                       \* nor is an output key of a mapping all of whose trigger keys are held
+                       \cup Tag(~isErr /\ ~inTab /\ \E k \in held: k \notin phys /\ ~\E i \in 1..Len(lay): InSeq(lay[i].to, k) /\ \A j \in 1..Len(lay[i].from): lay[i].from[j] \in phys,
+                               "C02-key-down-on-the-virtual-keyboard-while-waiting-without-justification")
                        \cup Tag(ended, "C10-call-after-end-of-device")
                        \cup (IF isErr THEN {} ELSE PollTiming(r))
                        \cup Tag(r.res = "dev" /\ \E i \in 1..Len(r.devs): (r.devs[i] = "K" /\ ~kN1) \/ (r.devs[i] = "T" /\ ~tN1), "ENV-bad-readiness")
@@ -241,6 +258,8 @@ ConsumeLine ==
                        \cup Tag(r.evs # <<>> /\ must.on /\ must.kind = "chord" /\ afterTab /\ r.evs # must.evs, "C12-chord-not-as-fresh-after-tablet-mode")
                        \cup Tag(r.evs # <<>> /\ ~must.on /\ ~must.on2 /\ ~prevTimeout /\ afterTab /\ ~inTab, "C12-write-a-fresh-loop-would-not-make-after-tablet-mode")
                        \cup Tag(isChord /\ HeldAfter(held, r.evs) # held, "C11-chord-not-transient")
+                       \* C19 at the device: a key is pressed that is down there, or released that is up there (timer chords are C11's)
+                       \cup Tag(~isChord /\ ~isErr /\ ~prevTimeout /\ Redundant(held, r.evs), "C19-redundant-event-written-to-the-device")
                        \* C12: a repeat chord although a tablet-mode switch was read since the last repeat was armed ("resumes as from a fresh start")
                        \cup Tag(r.evs # <<>> /\ tabCleared /\ prevTimeout /\ ~must.on, "C12-repeat-survives-tablet-switch")
                  /\ BumpIf(isChord, 3) /\ BumpIf(must.on /\ must.kind = "step", 4) /\ BumpIf(must.on /\ must.kind = "releaseall", 5)
